@@ -193,7 +193,27 @@ def run_traj(ctx, case):
         set_team(team)
         for nt in nts:
             D = _S['mod'].Debyer(domain=dom, nthreads=nt)
-            out = np.asarray(D.calculate(np.array(p1), np.array(p2), np.array(m1), np.array(m2), np.array(box), selfo), dtype=float)
+            # how the caller holds the arrays: fresh contiguous copies, a column of a (site, [type, molecule]) table (strided int64 view),
+            # every other element of a longer array, a row of a table, Fortran-ordered or float64 coordinates
+            lay = (case['seed'] + nt) % 6
+
+            def labels(m):
+                if lay == 1:
+                    return np.stack([np.zeros_like(m), m], axis=1)[:, 1]
+                if lay == 2:
+                    return np.repeat(m, 2)[::2]
+                if lay == 3:
+                    return np.stack([m, m + 1, m + 2], axis=0)[0, ::1][::-1][::-1]        # a row of a table, reversed twice (negative-stride view of a view)
+                return np.array(m)
+
+            def coords(pp):
+                if lay == 4:
+                    return np.asfortranarray(pp)
+                if lay == 5:
+                    return np.array(pp, dtype=np.float64)[:, :, :]
+                return np.array(pp)
+            ctx.count('array_layout', ['contiguous', 'labels: column view', 'labels: every other element', 'labels: row of a table', 'coordinates: Fortran order', 'coordinates: float64'][lay])
+            out = np.asarray(D.calculate(coords(p1), coords(p2), labels(m1), labels(m2), np.array(box), selfo), dtype=float)
             ctx.hook('debye.schedules')
             nsched += 1
             if out.shape != ref.shape or not np.all(np.abs(out - ref) <= tol):
